@@ -159,15 +159,26 @@ def write_replay(pid, kind, payload):
 
 
 def generate(pid, tier, seed, case_file, cap=None):
+    """runs the harness generator; returns (ok, output, hang_line). A case that runs longer than
+    VERIF_CASE_TIMEOUT seconds is reported by the harness's watchdog (exit status 3, `<file>.hang`);
+    a generator that exceeds the global limit is killed."""
     env = dict(ENV)
     corpus = os.path.join(VERIF, 'corpus', pid + '.cases')
     if os.path.exists(corpus):
         env['VERIF_CORPUS'] = corpus
     if cap:
         env['VERIF_CASE_CAP'] = str(cap)
-    p = subprocess.run([harness_bin(pid), 'gen', tier, str(seed), case_file], env=env,
-                       stdout=subprocess.PIPE, stderr=subprocess.STDOUT, text=True)
-    return p.returncode == 0, p.stdout
+    limit = int(os.environ.get('VERIF_GEN_TIMEOUT', '900' if tier == 'quick' else '7200'))
+    hang_file = case_file + '.hang'
+    if os.path.exists(hang_file):
+        os.remove(hang_file)
+    try:
+        p = subprocess.run([harness_bin(pid), 'gen', tier, str(seed), case_file], env=env,
+                           stdout=subprocess.PIPE, stderr=subprocess.STDOUT, text=True, timeout=limit)
+    except subprocess.TimeoutExpired:
+        return False, 'generator killed after %d s' % limit, None
+    hang = open(hang_file).read().strip() if os.path.exists(hang_file) else None
+    return p.returncode == 0, p.stdout, hang
 
 
 def classify(lines, verdicts):
@@ -247,11 +258,15 @@ def check(pid, tier, seed):
     elif not driver_ok:
         broken_ties.append('driver:drv_%s does not build: %s' % (pid.lower(), out_build[-600:]))
     else:
-        ok_gen, out_gen = generate(pid, tier, seed, case_file)
-        if not ok_gen:
+        ok_gen, out_gen, hang = generate(pid, tier, seed, case_file)
+        if not ok_gen and not hang:
             broken_ties.append('harness generator died: ' + out_gen[-400:])
         lines, verdicts = run_driver(pid, case_file, NCPU)
         stats, tags, fails, dis, bad, n_nontrivial = classify(lines, verdicts)
+        if hang:
+            # the library did not return on this input: an outcome the property never allows
+            fails.append((hang + ' => hang', 'FAIL 1 hang clause=outcome:hang', 'clause=outcome:hang (the call did not return within the per-case limit)'))
+            stats['FAIL'] += 1
         if bad:
             broken_ties.append('driver could not process %d cases, e.g. %s -> %s' % (len(bad), bad[0][0][:200], bad[0][1][:200]))
 
@@ -280,9 +295,11 @@ def check(pid, tier, seed):
         found = None
         if ok_cargo and driver_ok and tier != 'thorough':
             sfile = os.path.join(WORK, '%s.search.cases' % pid)
-            ok_gen, _ = generate(pid, 'thorough', seed + 1, sfile, cap=int(os.environ.get('VERIF_SEARCH_CAP', '400000')))
+            ok_gen, _, shang = generate(pid, 'thorough', seed + 1, sfile, cap=int(os.environ.get('VERIF_SEARCH_CAP', '400000')))
             sl, sv = run_driver(pid, sfile, NCPU)
             _, _, sfails, _, _, _ = classify(sl, sv)
+            if shang:
+                sfails.append((shang + ' => hang', 'FAIL 1 hang clause=outcome:hang', 'clause=outcome:hang'))
             sfails = [x for x in sfails if case_signature(x[0]) not in known_sigs]
             if sfails:
                 sfails.sort(key=lambda x: len(x[0]))
